@@ -1393,11 +1393,14 @@ func (h *Hashgraph) ProcessSigPool() error {
 
 		valid, err := block.Verify(bs)
 		if err != nil {
+			// A malformed signature will never become valid: drop it and
+			// carry on with the other pending signatures.
 			h.logger.WithFields(logrus.Fields{
 				"index": bs.Index,
 				"msg":   err,
 			}).Error("Verifying Block signature")
-			return err
+			h.PendingSignatures.Remove(bs.Key())
+			continue
 		}
 		if !valid {
 			bytesBlock, _ := block.Marshal()
